@@ -449,12 +449,16 @@ def c_lexer_peek(lx: Obj("Lexer"), src: Str, pos: IntRange(0, 2 ** 31), off: Int
     check("cursor-stays", lx.pos == pos and lx.source == src)
 
 
+# ECMA-262 12.2 WhiteSpace and 12.3 LineTerminator (written out here, not taken from the engine)
+ES_TRIVIA_CHARS = "\t\n\x0b\x0c\r \xa0\u1680\u2000\u2001\u2002\u2003\u2004\u2005\u2006\u2007\u2008\u2009\u200a\u2028\u2029\u202f\u205f\u3000\ufeff"
+
+
 @recursive
 def spec_eol(s, i) -> "int":
-    """first index >= i holding a line feed; len(s) if there is none (measure: len(s) - i)"""
+    """first index >= i holding a LineTerminator (LF, CR, LS, PS); len(s) if there is none (measure: len(s) - i)"""
     if i < 0 or i >= len(s):
         return len(s)
-    if s[i] == "\n":
+    if s[i] == "\n" or s[i] == "\r" or s[i] == "\u2028" or s[i] == "\u2029":
         return i
     return spec_eol(s, i + 1)
 
@@ -483,7 +487,7 @@ def spec_trivia_end(s, i) -> "int":
     SingleLineComment, MultiLineComment); -1 when a block comment is not closed (measure: len(s) - i)"""
     if i < 0 or i >= len(s):
         return i
-    if s[i] == " " or s[i] == "\t" or s[i] == "\r" or s[i] == "\n":
+    if s[i] in ES_TRIVIA_CHARS:
         return spec_trivia_end(s, i + 1)
     if s[i] == "/" and i + 1 < len(s) and s[i + 1] == "/":
         return spec_trivia_end(s, spec_eol(s, i + 2))
